@@ -3,6 +3,9 @@ From Rosmar Require Import Base Json Crc Kv Store Trace KvTac.
 
 Theorem C06_row_sound : rc_sound chk_row_C06.
 Proof. start_rc. all: unfold chk_row_C06; fin.
-  all: xerr_contra.
+  all: try xerr_contra.
+  (* an append that names the stored version: it insists on nothing (AddOnly would have been refused, and no stored
+     version is numbered 0) *)
+  all: exfalso; match goal with H0 : ?a && true && true = false, H2 : ?a || (?c =? 0) = true, Hc : ?c <> 0 |- _ =>
+         destruct a; cbn in H0, H2; [discriminate H0 | apply N.eqb_eq in H2; contradiction] end.
 Qed.
-
